@@ -239,6 +239,12 @@ macro_rules! set_node_state {
              => panic!("Moving a job between kinds"), // if you encounter this from python, the
                                                        // sky must be falling
         }
+        #[cfg(tyberiusprime_pypipegraph2_verif)]
+        crate::verif::log(crate::verif::VerifEvent::State {
+            job: $node.job_id.clone(),
+            from: format!("{:?}", $node.state),
+            to: format!("{:?}", $new_state),
+        });
         $node.state = $new_state;
         $gen.advance();
     };
@@ -287,6 +293,11 @@ macro_rules! NewSignal {
                 node_idx: $node_idx,
             };
             debug!("-> new {:?} {}", sig, $jobs[$node_idx].job_id);
+            #[cfg(tyberiusprime_pypipegraph2_verif)]
+            crate::verif::log(crate::verif::VerifEvent::Push {
+                kind: format!("{:?}", sig.kind),
+                job: $jobs[$node_idx].job_id.clone(),
+            });
             sig
         }
     };
@@ -944,6 +955,12 @@ impl<T: PPGEvaluatorStrategy> PPGEvaluator<T> {
             for idx in candidates.iter() {
                 debug!("removed leaf ephemeral {}", self.jobs[*idx].job_id);
                 self.dag.remove_node(*idx);
+                #[cfg(tyberiusprime_pypipegraph2_verif)]
+                crate::verif::log(crate::verif::VerifEvent::State {
+                    job: self.jobs[*idx].job_id.clone(),
+                    from: format!("{:?}", self.jobs[*idx].state),
+                    to: "Pruned".to_string(),
+                });
                 self.jobs[*idx].state = JobState::Ephemeral(JobStateEphemeral::FinishedSkipped);
                 ephemerals.remove(idx);
             }
@@ -1174,7 +1191,14 @@ impl<T: PPGEvaluatorStrategy> PPGEvaluator<T> {
         }
         let mut new_signals = Vec::new();
         let mut ignore_consider_signals = HashSet::new();
+        #[cfg(tyberiusprime_pypipegraph2_verif)]
+        crate::verif::log(crate::verif::VerifEvent::Wave { depth });
         for signal in self.signals.drain(..) {
+            #[cfg(tyberiusprime_pypipegraph2_verif)]
+            crate::verif::log(crate::verif::VerifEvent::Signal {
+                kind: format!("{:?}", signal.kind),
+                job: signal.job_id(&self.jobs).to_string(),
+            });
             debug!("");
             debug!(
                 "\tHandling {:?} for {}. Current state: {:?}",
@@ -2586,5 +2610,60 @@ impl<T: PPGEvaluatorStrategy> PPGEvaluator<T> {
             self.signals.push_back(signal)
         }
         debug!("done adding root signals\n");
+    }
+}
+
+#[cfg(tyberiusprime_pypipegraph2_verif)]
+impl NodeInfo {
+    pub fn verif_job_id(&self) -> &str {
+        &self.job_id
+    }
+}
+
+/// verification hook: read-only snapshot of the evaluator's private state
+#[cfg(tyberiusprime_pypipegraph2_verif)]
+impl<T: PPGEvaluatorStrategy> PPGEvaluator<T> {
+    pub fn verif_snapshot(&self) -> crate::verif::VerifSnapshot {
+        let mut edges = Vec::new();
+        for (a, b, w) in self.dag.all_edges() {
+            edges.push((
+                self.jobs[a].job_id.clone(),
+                self.jobs[b].job_id.clone(),
+                format!("{:?}", w.required),
+                format!("{:?}", w.invalidated),
+            ));
+        }
+        let mut ready: Vec<String> = self.jobs_ready_to_run.iter().cloned().collect();
+        ready.sort();
+        let mut cleanup: Vec<String> = self.jobs_ready_for_cleanup.iter().cloned().collect();
+        cleanup.sort();
+        crate::verif::VerifSnapshot {
+            phase: match self.already_started {
+                StartStatus::NotStarted => "NotStarted",
+                StartStatus::Running => "Running",
+                StartStatus::Finished => "Finished",
+            },
+            jobs: self
+                .jobs
+                .iter()
+                .enumerate()
+                .map(|(idx, j)| crate::verif::VerifJob {
+                    job_id: j.job_id.clone(),
+                    state: format!("{:?}", j.state),
+                    history_output: j.history_output.clone(),
+                    last_considered_in_gen: j.last_considered_in_gen,
+                    in_dag: self.dag.contains_node(idx),
+                })
+                .collect(),
+            edges,
+            ready,
+            cleanup,
+            queue: self
+                .signals
+                .iter()
+                .map(|s| (format!("{:?}", s.kind), s.job_id(&self.jobs).to_string()))
+                .collect(),
+            gen: self.gen.get(),
+        }
     }
 }
